@@ -1,7 +1,8 @@
 import json, sys
 pid = sys.argv[1]
+suf = sys.argv[2] if len(sys.argv) > 2 else ''
 p = [json.loads(l) for l in open('/verif/properties.jsonl') if json.loads(l)['id'] == pid][0]
-print(f"""You are helping test a verification effort for the Python library `unified-planning` (modelling AI planning problems). Work ONLY inside the scratch git worktree /tmp/wt_{pid} (a checkout of the library; the package is `unified_planning/`). Do not read or write anything under /repo or /verif. Use /venv/bin/python (it has the library's dependencies; run things with `cd /tmp/wt_{pid} && PYTHONPATH=/tmp/wt_{pid} /venv/bin/python ...` so that YOUR worktree's code is imported, and verify with `python -c "import unified_planning; print(unified_planning.__file__)"` that it resolves to the worktree).
+print(f"""You are helping test a verification effort for the Python library `unified-planning` (modelling AI planning problems). Work ONLY inside the scratch git worktree /tmp/wt_{pid}{suf} (a checkout of the library; the package is `unified_planning/`). Do not read or write anything under /repo or /verif. Use /venv/bin/python (it has the library's dependencies; run things with `cd /tmp/wt_{pid}{suf} && PYTHONPATH=/tmp/wt_{pid}{suf} /venv/bin/python ...` so that YOUR worktree's code is imported, and verify with `python -c "import unified_planning; print(unified_planning.__file__)"` that it resolves to the worktree).
 
 Here is a semantic property the library is supposed to satisfy:
 
@@ -12,10 +13,10 @@ Here is a semantic property the library is supposed to satisfy:
   files involved: {', '.join(p['anchors']['files'])}
 
 Task: produce ONE realistic code change (a plausible bug a maintainer could introduce: a refactoring slip, an optimisation, a reordered statement, a wrong boundary, a forgotten case...) to the library source in your worktree that BREAKS this property, while (a) the code still imports/compiles and (b) the existing test suite still passes:
-   cd /tmp/wt_{pid} && PYTHONPATH=/tmp/wt_{pid} /venv/bin/python -m pytest -q -p no:cacheprovider --timeout=900 2>&1 | tail -3
+   cd /tmp/wt_{pid}{suf} && PYTHONPATH=/tmp/wt_{pid}{suf} /venv/bin/python -m pytest -q -p no:cacheprovider --timeout=900 2>&1 | tail -3
 (the suite takes ~2-3 minutes; it must still report 428 passed).
 The change must need something SPECIFIC to manifest -- an unusual input, a particular multi-step sequence of operations, a corner case, or two cooperating sites that each look fine alone -- not something ordinary use would expose at once. Keep it small (a few lines). Do not touch tests.
 
-Also write a demonstration program /tmp/wt_{pid}/demo_{pid}.py: a small standalone script that exercises the public API, exits 0 (prints PASS) on the ORIGINAL code and exits 1 (prints FAIL and what went wrong) with your change applied. Verify both: run it with your change (must fail), then save your change with `git diff > /tmp/wt_{pid}/my_change.patch`, undo it with `git checkout -- unified_planning` (do NOT use `git stash`: the stash is shared between worktrees), run the demo again (must pass), then re-apply with `git apply /tmp/wt_{pid}/my_change.patch`.
+Also write a demonstration program /tmp/wt_{pid}{suf}/demo_{pid}.py: a small standalone script that exercises the public API, exits 0 (prints PASS) on the ORIGINAL code and exits 1 (prints FAIL and what went wrong) with your change applied. Verify both: run it with your change (must fail), then save your change with `git diff > /tmp/wt_{pid}{suf}/my_change.patch`, undo it with `git checkout -- unified_planning` (do NOT use `git stash`: the stash is shared between worktrees), run the demo again (must pass), then re-apply with `git apply /tmp/wt_{pid}{suf}/my_change.patch`.
 
-When done, leave the source change UNCOMMITTED in the worktree (so that `git -C /tmp/wt_{pid} diff` shows exactly the change; the demo file may be untracked) and reply with: the diff, the demo file path, one paragraph on what is needed for the bug to manifest, and the exact outputs you observed for (1) the test suite with the change, (2) demo with change, (3) demo without change.""")
+When done, leave the source change UNCOMMITTED in the worktree (so that `git -C /tmp/wt_{pid}{suf} diff` shows exactly the change; the demo file may be untracked) and reply with: the diff, the demo file path, one paragraph on what is needed for the bug to manifest, and the exact outputs you observed for (1) the test suite with the change, (2) demo with change, (3) demo without change.""")
